@@ -27,16 +27,17 @@ type TierSpec struct {
 }
 
 type HarnessSpec struct {
-	Pkg       string            `json:"pkg"`
-	Entry     string            `json:"entry"`
-	Quick     TierSpec          `json:"quick"`
-	Thorough  TierSpec          `json:"thorough"`
-	Reach     []string          `json:"reach"`
-	Native    bool              `json:"native_replay"` // counterexamples and witnesses are replayed natively
-	Solver    string            `json:"solver"`
-	Kernels   map[string]string `json:"kernels"`
-	What      string            `json:"what"`
-	NoWitness bool              `json:"no_witness"`
+	Pkg        string            `json:"pkg"`
+	Entry      string            `json:"entry"`
+	Quick      TierSpec          `json:"quick"`
+	Thorough   TierSpec          `json:"thorough"`
+	Reach      []string          `json:"reach"`
+	Native     bool              `json:"native_replay"` // counterexamples and witnesses are replayed natively
+	Solver     string            `json:"solver"`
+	Kernels    map[string]string `json:"kernels"`
+	What       string            `json:"what"`
+	NoWitness  bool              `json:"no_witness"`
+	Concurrent bool              `json:"concurrent"`
 }
 
 type PropSpec struct {
@@ -229,6 +230,8 @@ func cmdCheck(args []string) int {
 				_, bad := nativeRun(r.h, []map[string]interface{}{v.Inputs}, r.ts.Bounds, true)
 				if len(bad) > 0 {
 					native = "reproduced: " + strings.Join(bad, "; ")
+				} else if r.h.Concurrent {
+					native = "not reproduced under the native default schedule (schedule-dependent; the in-engine trace is the replay artefact)"
 				} else {
 					native = "not-reproduced"
 				}
@@ -268,6 +271,7 @@ func cmdCheck(args []string) int {
 		exs = append(exs, r.ex)
 	}
 	writeEvidenceFull(id, *tier, seed, spec, exs, cov, time.Since(t0), nViol, inconc, validated)
+	nativeCleanup()
 	if exit == 0 {
 		fmt.Printf("OK property=%s tier=%s %.1fs\n", id, *tier, time.Since(t0).Seconds())
 	}
@@ -308,67 +312,107 @@ func matchKnown(known []KnownFinding, id, entry, class string) *KnownFinding {
 	return nil
 }
 
-// nativeRun executes the harness natively (go test in the harness module) once
-// per pinned input set. expectFail=false: all must pass; returns count ok and
-// descriptions of disagreements. expectFail=true: returns failures found as "bad".
-func nativeRun(h HarnessSpec, pins []map[string]interface{}, bounds map[string]int, expectFail bool) (int, []string) {
-	dir, err := os.MkdirTemp("/var/tmp", "gjv-replay-")
-	if err != nil {
-		return 0, []string{"mktemp: " + err.Error()}
-	}
-	defer os.RemoveAll(dir)
-	for i, p := range pins {
-		b, _ := json.Marshal(map[string]interface{}{"inputs": p, "bounds": bounds})
-		os.WriteFile(filepath.Join(dir, fmt.Sprintf("pin%04d.json", i)), b, 0o644)
+// nativeRun executes the harness natively once per pinned input set: the
+// package's test binary is built once (go test -c, with the kernel overlay if
+// any) and run in a fresh process per pin, so a native crash is attributed to
+// its own input. expectFail=false: all must pass; returns the count that passed
+// and descriptions of disagreements. expectFail=true: returns failures as "bad".
+var nativeBins = map[string]string{}
+
+func nativeBuild(h HarnessSpec, scratch string) (string, string) {
+	key := h.Pkg
+	if b, ok := nativeBins[key]; ok {
+		return b, ""
 	}
 	rel := strings.TrimPrefix(h.Pkg, "gjvharness/")
-	args := []string{"test", "-v", "-vet=off", "-count=1", "-run", "^TestReplay$", "-timeout", "300s"}
+	bin := filepath.Join(scratch, strings.ReplaceAll(rel, "/", "_")+".test")
+	args := []string{"test", "-c", "-vet=off", "-o", bin}
 	if len(h.Kernels) > 0 {
 		ov := map[string]map[string]string{"Replace": {}}
 		for virt, real := range h.Kernels {
 			ov["Replace"][filepath.Join(repoDir(), virt)] = filepath.Join(verifDir(), real)
 		}
 		ob, _ := json.Marshal(ov)
-		os.WriteFile(filepath.Join(dir, "overlay.json"), ob, 0o644)
-		args = append(args, "-tags", "verif", "-overlay", filepath.Join(dir, "overlay.json"))
+		os.WriteFile(filepath.Join(scratch, "overlay.json"), ob, 0o644)
+		args = append(args, "-tags", "verif", "-overlay", filepath.Join(scratch, "overlay.json"))
 	}
 	args = append(args, "./"+rel)
 	cmd := exec.Command("go", args...)
 	cmd.Dir = harnessDir()
-	cmd.Env = append(os.Environ(), "GOFLAGS=-mod=mod", "GOPROXY=off", "GOSUMDB=off", "GOTOOLCHAIN=local",
-		"VERIF_PIN_DIR="+dir, "VERIF_ENTRY="+h.Entry, "GOCACHE="+goCache())
-	out, _ := cmd.CombinedOutput()
+	cmd.Env = append(os.Environ(), "GOFLAGS=-mod=mod", "GOPROXY=off", "GOSUMDB=off", "GOTOOLCHAIN=local", "GOCACHE="+goCache())
+	out, err := cmd.CombinedOutput()
+	if err != nil {
+		return "", "native build failed: " + string(out)
+	}
+	nativeBins[key] = bin
+	return bin, ""
+}
+
+var nativeScratch string
+
+func nativeRun(h HarnessSpec, pins []map[string]interface{}, bounds map[string]int, expectFail bool) (int, []string) {
+	if nativeScratch == "" {
+		d, err := os.MkdirTemp("/var/tmp", "gjv-replay-")
+		if err != nil {
+			return 0, []string{"mktemp: " + err.Error()}
+		}
+		nativeScratch = d
+	}
+	bin, berr := nativeBuild(h, nativeScratch)
+	if berr != "" {
+		return 0, []string{berr}
+	}
 	okN := 0
 	var bad []string
-	sawResult := false
-	for _, l := range strings.Split(string(out), "\n") {
-		l = strings.TrimSpace(l)
-		switch {
-		case strings.HasPrefix(l, "REPLAY-OK"):
-			okN++
-			sawResult = true
-		case strings.HasPrefix(l, "REPLAY-SKIP"):
-			sawResult = true
-		case strings.HasPrefix(l, "REPLAY-FAIL"):
-			bad = append(bad, strings.TrimPrefix(l, "REPLAY-FAIL "))
-			sawResult = true
-		}
-	}
-	if !sawResult {
-		tail := string(out)
-		if len(tail) > 600 {
-			tail = tail[len(tail)-600:]
-		}
-		if expectFail {
-			// a crash of the native process is a reproduction of a crash finding
-			if strings.Contains(string(out), "panic:") || strings.Contains(string(out), "fatal error:") {
-				return 0, []string{"native process crashed: " + firstLine(tail[strings.Index(tail, "panic:")+0:])}
+	for i, p := range pins {
+		dir, _ := os.MkdirTemp(nativeScratch, "pin")
+		b, _ := json.Marshal(map[string]interface{}{"inputs": p, "bounds": bounds})
+		os.WriteFile(filepath.Join(dir, fmt.Sprintf("pin%04d.json", i)), b, 0o644)
+		cmd := exec.Command(bin, "-test.v", "-test.run", "^TestReplay$", "-test.timeout", "120s")
+		cmd.Dir = nativeScratch
+		cmd.Env = append(os.Environ(), "VERIF_PIN_DIR="+dir, "VERIF_ENTRY="+h.Entry)
+		out, _ := cmd.CombinedOutput()
+		os.RemoveAll(dir)
+		saw := false
+		for _, l := range strings.Split(string(out), "\n") {
+			l = strings.TrimSpace(l)
+			switch {
+			case strings.HasPrefix(l, "REPLAY-OK"):
+				okN++
+				saw = true
+			case strings.HasPrefix(l, "REPLAY-SKIP"):
+				saw = true
+			case strings.HasPrefix(l, "REPLAY-ERROR"):
+				saw = true
+				bad = append(bad, "native harness error: "+l)
+			case strings.HasPrefix(l, "REPLAY-FAIL"):
+				bad = append(bad, strings.TrimPrefix(l, "REPLAY-FAIL "))
+				saw = true
 			}
-			return 0, nil
 		}
-		return 0, []string{"native run produced no result: " + tail}
+		if !saw {
+			txt := string(out)
+			if i := strings.Index(txt, "panic:"); i >= 0 {
+				bad = append(bad, "native process crashed: "+firstLine(txt[i:]))
+			} else if i := strings.Index(txt, "fatal error:"); i >= 0 {
+				bad = append(bad, "native process crashed: "+firstLine(txt[i:]))
+			} else if strings.Contains(txt, "test timed out") {
+				bad = append(bad, "native run hung (test timed out)")
+			} else if !expectFail {
+				if len(txt) > 400 {
+					txt = txt[len(txt)-400:]
+				}
+				bad = append(bad, "native run produced no result: "+txt)
+			}
+		}
 	}
 	return okN, bad
+}
+
+func nativeCleanup() {
+	if nativeScratch != "" {
+		os.RemoveAll(nativeScratch)
+	}
 }
 
 func goCache() string {
@@ -457,6 +501,7 @@ func cmdReplay(args []string) int {
 	i := strings.LastIndexByte(rep.Harness, '.')
 	h := HarnessSpec{Pkg: rep.Harness[:i], Entry: rep.Harness[i+1:], Native: true}
 	_, bad := nativeRun(h, []map[string]interface{}{rep.Inputs}, rep.Bounds, true)
+	nativeCleanup()
 	if len(bad) > 0 {
 		fmt.Printf("reproduced natively: %s (class %s)\n", strings.Join(bad, "; "), rep.Class)
 		return 1
